@@ -315,3 +315,29 @@ fn c12_inferred_delta_cases() {
 fn c12_inferred_delta_cases_wide() {
     inferred_delta_cases(8);
 }
+
+// ---------------------------------------------------------------------------
+// HVAR: which delta set a glyph's metric uses (hook H10 on the private mapping step)
+// ---------------------------------------------------------------------------
+
+/// HVAR: with a delta-set index map the glyph id is the map index - and an id at or beyond
+/// mapCount uses the LAST entry (OpenType "Associating target items to variation data"); without
+/// a map there is no explicit entry (the caller then uses outer 0 / inner glyph id for advances
+/// and no delta for side bearings).
+// @bound delta-set index map format 0 with mapCount 3, 2-byte entries with 8 inner bits (entryFormat 0x17), every entry byte and every glyph id symbolic; and the absent map
+#[kani::proof]
+#[kani::unwind(6)]
+fn c12_hvar_glyph_to_delta_set() {
+    use allsorts::tables::variable_fonts::hvar::verif_delta_set_entry_for_glyph;
+    let mut buf: [u8; 10] = kani::any();
+    buf[0] = 0;
+    buf[1] = 0x17;
+    put16(&mut buf, 2, 3);
+    let glyph: u16 = kani::any();
+    let got = verif_delta_set_entry_for_glyph(glyph, Some(&buf)).unwrap();
+    let k = if glyph >= 3 { 2 } else { glyph as usize };
+    assert!(got == Some((buf[4 + 2 * k] as u16, buf[5 + 2 * k] as u16)), "entry of the glyph, last entry beyond mapCount");
+    kani::cover!(glyph == 2, "last mapped glyph");
+    kani::cover!(glyph > 700, "glyph beyond the map");
+    assert!(verif_delta_set_entry_for_glyph(glyph, None).unwrap().is_none(), "no map: implicit mapping");
+}
